@@ -25,7 +25,7 @@ import (
 func TestMain(m *testing.M) {
 	ev.SetMeta(ev.Meta{
 		Property: "C15", Level: "exploration",
-		Rule: "four decode targets (util.CreateNode, wmpt.DeserializeNode, WeightedMerkleTrie.Deserialize, WeightedMerkleTrie.VerifyBlockProof). Inputs: real encodings harvested from rapid-generated tries (state-trie nodes of every kind, weighted-trie nodes, path exports, block proofs) with 1..3 structural mutations: truncate at any offset, delete or duplicate a separator, set the type byte to 0..15 or 255, inflate a CBOR length head, splice two encodings, hand-built branch records with child blobs of every length 0..80 and more than 16 children, 65+ or odd numbers of hex digits in a branch child slot, CBOR nulls in element lists, random byte edits; plus short arbitrary byte strings. " +
+		Rule: "four decode targets (util.CreateNode, wmpt.DeserializeNode, WeightedMerkleTrie.Deserialize, WeightedMerkleTrie.VerifyBlockProof). Inputs: real encodings harvested from rapid-generated tries (state-trie nodes of every kind, weighted-trie nodes, path exports, block proofs) with 1..3 structural mutations: truncate at any offset, an element of a path export or proof turned into a record of another kind (empty node, hash reference, value, no kind, two kinds, a copy of another element), delete or duplicate a separator, set the type byte to 0..15 or 255, inflate a CBOR length head, splice two encodings, hand-built branch records with child blobs of every length 0..80 and more than 16 children, 65+ or odd numbers of hex digits in a branch child slot, CBOR nulls in element lists, random byte edits; plus short arbitrary byte strings. " +
 			"Oracle: no panic, the call returns promptly (a decode slower than 20 s is re-run three times before it counts), and whatever is accepted re-encodes (Encode/Serialize/CalcHash/Root/GetHash) without panicking. Errors are the expected outcome. " +
 			"Non-trivial = the input differs from every valid encoding it was derived from and got past the decoder's first validation step (type dispatch / CBOR well-formedness); distinct = distinct (target, input bytes).",
 		Assumptions: []string{"inputs are at most 64 KiB"},
@@ -332,6 +332,50 @@ func fieldMutate(rt *rapid.T, in []byte, label string) ([]byte, string) {
 		return out
 	}
 	what := ""
+	if gen.Chance(rt, 25, label+"kind") {
+		// the element keeps its place but becomes a record of another kind (or of no kind, or of two kinds)
+		ownHash := bytes.Repeat([]byte{7}, 32)
+		switch {
+		case n.Branch != nil && len(n.Branch.Hash) == 32:
+			ownHash = n.Branch.Hash
+		case n.Short != nil && len(n.Short.Hash) == 32:
+			ownHash = n.Short.Hash
+		case n.Value != nil && len(n.Value.Hash) == 32:
+			ownHash = n.Value.Hash
+		}
+		var r wmpt.PersistNodeBase
+		switch gen.Uniform(rt, 0, 5, label+"newkind") {
+		case 0:
+			r.NilNode = &wmpt.PersistNilNode{}
+			what = "element-becomes-empty-node"
+		case 1:
+			r.HashNode = &wmpt.PersistHashNode{Hash: ownHash, Weight: uint64(gen.Uniform(rt, 0, 9, label+"hw"))}
+			what = "element-becomes-hash-reference"
+		case 2:
+			r.Value = &wmpt.PersistNodeValue{Value: []byte{1, 2, 3}, Hash: ownHash, Weight: uint64(gen.Uniform(rt, 0, 9, label+"vw"))}
+			what = "element-becomes-value"
+		case 3:
+			what = "element-of-no-kind"
+		case 4:
+			r = n
+			r.NilNode = &wmpt.PersistNilNode{}
+			what = "element-of-two-kinds"
+		default:
+			j := gen.Uniform(rt, 0, len(pt.Pairs)-1, label+"swap")
+			if pt.Pairs[j] != nil && cbor.Unmarshal(pt.Pairs[j].Value, &r) == nil && j != i {
+				what = "element-replaced-by-another-element"
+			}
+		}
+		if what != "" {
+			if b, err := cbor.Marshal(&r); err == nil {
+				pt.Pairs[i].Value = b
+				if out, err := cbor.Marshal(&pt); err == nil {
+					return out, "record-kind:" + what
+				}
+			}
+		}
+		return in, "none"
+	}
 	switch {
 	case n.Branch != nil:
 		switch gen.Uniform(rt, 0, 3, label+"bf") {
